@@ -169,6 +169,22 @@ func checkC06(c *Check) {
 					if !has {
 						idxOK = false
 					}
+					// a variant with content is decoded at the top level of its arm — with a nil lexer when "value" is
+					// omitted — so that the omitted value means the empty value (also in a reused object)
+					nested, topLevel := 0, 0
+					walkBlock(cs.Body, nil, func(m Node, _ []Guard) {
+						if cn, ok := m.(*CallN); ok && cn.Fn != nil && strings.Contains(cn.Fn.Name(), "ReadJSON") && g.funcs[cn.Fn] != nil {
+							nested++
+						}
+					})
+					for _, m := range cs.Body {
+						if cn, ok := m.(*CallN); ok && cn.Fn != nil && strings.Contains(cn.Fn.Name(), "ReadJSON") && g.funcs[cn.Fn] != nil {
+							topLevel++
+						}
+					}
+					if nested > 0 {
+						c.Ob("json-union/omitted-value-means-empty", name+"/"+strings.Trim(cs.Vals[0], `"`), nested == topLevel, posStr(g.co.Fset, cs.Pos), fmt.Sprintf("the variant reader is called unconditionally in the arm (%d of %d calls at top level): without \"value\" it runs on a nil lexer and resets the variant", topLevel, nested))
+					}
 				}
 				c.Ob("json-union/unknown-type-rejected", name, defOK, pos, "the default arm of the type-name switch returns ErrorInvalidUnionTagJSON")
 				c.Ob("json-union/arm-selects-variant", name, idxOK && arms > 0, pos, fmt.Sprintf("%d arms, each assigns item.index a constant", arms))
@@ -335,6 +351,7 @@ func checkC06(c *Check) {
 	c.Floor("json-struct/explicit-false-with-mask-bit-rejected", 2)
 	c.Floor("json-tuple/length-enforced", 5)
 	c.Floor("json-union/unknown-type-rejected", 10)
+	c.Floor("json-union/omitted-value-means-empty", 80)
 	c.Floor("json-maybe/through-helper", 5)
 	c.Floor("json-helper/union-forms", 3)
 	c.Floor("json-helper/maybe-truth-table", 3)
